@@ -81,3 +81,82 @@ BPP = {0: 1, 1: 2, 2: 1, 3: 2, 5: 2, 6: 2, 7: 2}
 def oracle_kind(msg):
     """signature of an oracle message: its first token with numbers stripped"""
     return re.sub(r"\d+", "N", msg.split()[0])
+
+
+# ---------------------------------------------------------------------------------- co-simulation with the Lean model M1
+STATE_NAMES = {"Closed": "0", "AwaitingConfiguration": "1", "Armed": "2", "Running": "3"}
+
+
+def model_scenario(sc):
+    """translate a harness scenario (one configure, then a window of data-path ops) into the model driver's input"""
+    lines = ["ring %d" % sc["ring"]]
+    faults = sc.get("faults", [])
+    for s, cfg in enumerate(sc["streams"]):
+        if cfg is None:
+            continue
+        extra = ""
+        for f in faults:
+            t = f.split()
+            if t[0] == "cam" and int(t[1]) == s:
+                extra += " camfail=%s%s" % (t[2], "p" if len(t) > 3 else "")
+            if t[0] == "sto" and int(t[1]) == s + 2:
+                extra += " stofail=%s%s" % (t[2], "p" if len(t) > 3 else "")
+            if t[0] == "camempty":
+                extra += " camempty=%s" % t[1]
+        lines.append("stream %d F=%d n=%d w=%d h=%d type=%d%s" % (s, frame_bytes(cfg["w"], cfg["h"], BPP[cfg["type"]]), cfg["n"],
+                                                                  cfg["w"], cfg["h"], cfg["type"], extra))
+    ops = []
+    for op in sc["window"]:
+        if op.startswith("reconfigure"):
+            t = op.split()
+            ops.append("configure %s %s" % (t[1], t[2] if len(t) > 2 else "0"))
+        else:
+            ops.append(op)
+    lines.append("prog " + " ; ".join(ops))
+    return lines
+
+
+def harness_prog(sc):
+    prog = []
+    for s, cfg in enumerate(sc["streams"]):
+        if cfg is not None:
+            prog.append("cfg %d cam=%d sto=%d w=%d h=%d type=%d n=%d" % (s, s, s + 2, cfg["w"], cfg["h"], cfg["type"], cfg["n"]))
+    prog += ["configure", "window"]
+    for op in sc["window"]:
+        if op.startswith("reconfigure"):
+            t = op.split()
+            ns = [int(t[1]), int(t[2]) if len(t) > 2 else 0]
+            for s, cfg in enumerate(sc["streams"]):
+                if cfg is not None:
+                    prog.append("cfg %d cam=%d sto=%d w=%d h=%d type=%d n=%d" % (s, s, s + 2, cfg["w"], cfg["h"], cfg["type"], ns[s]))
+            prog.append("configure")
+        else:
+            prog.append(op)
+    return prog + ["endwindow"]
+
+
+def cosim_lines(raw_lines):
+    """the comparable part of a harness run: D/S lines and API/DRV lines inside the window"""
+    out, inside = [], False
+    for ln in raw_lines:
+        if ln == "WINDOW":
+            inside = True
+            continue
+        if ln == "ENDWINDOW":
+            inside = "last"
+            continue
+        if not inside:
+            continue
+        if inside == "last":
+            if ln.startswith("S "):
+                out.append(ln)
+            inside = False
+            continue
+        if ln.startswith(("D ", "S ", "API ", "DRV ")):
+            ln = re.sub(r" n=\d+$", "", ln)
+            out.append(ln)
+    return out
+
+
+def decisions_of(lines):
+    return [int(l.split()[1]) for l in lines if l.startswith("D ")]
